@@ -101,3 +101,43 @@ func HTTPError(w http.ResponseWriter, msg string, code int) {
 	w.WriteHeader(code)
 	w.Write([]byte(msg + "\n"))
 }
+
+// ResponseWrite models (*http.Response).Write for the responses hc builds (status line,
+// Content-Type, Content-Length, blank line, body). Header order and the exact spelling of
+// the status line are wire details outside the model; hc's FixProtocolSpecifier rewrites
+// the "HTTP/1.0" this emits.
+func ResponseWrite(r *http.Response, w io.Writer) error {
+	body, err := io.ReadAll(r.Body)
+	if err != nil {
+		return err
+	}
+	head := "HTTP/" + itoa(r.ProtoMajor) + "." + itoa(r.ProtoMinor) + " " + r.Status + "\r\n"
+	if ct := r.Header.Get("Content-Type"); ct != "" {
+		head += "Content-Type: " + ct + "\r\n"
+	}
+	head += "Content-Length: " + itoa(len(body)) + "\r\n\r\n"
+	if _, err := w.Write([]byte(head)); err != nil {
+		return err
+	}
+	_, err = w.Write(body)
+	return err
+}
+
+func itoa(n int) string {
+	if n == 0 {
+		return "0"
+	}
+	neg := n < 0
+	if neg {
+		n = -n
+	}
+	var b []byte
+	for n > 0 {
+		b = append([]byte{byte('0' + n%10)}, b...)
+		n /= 10
+	}
+	if neg {
+		return "-" + string(b)
+	}
+	return string(b)
+}
